@@ -118,11 +118,22 @@ def run_cases(mod, descs, workdir, jobs=16):
             rec["tb"] = traceback.format_exc()[-1500:]
         recs.append(rec)
     t_impl = time.time() - t0
-    terms = [mod.coq_term(d) for d in descs]
+    terms = []
+    for rec in recs:
+        try:
+            terms.append(mod.coq_term(rec["desc"]))
+        except Exception as e:
+            if rec["impl_error"] is None:
+                raise
+            terms.append(None)      # the implementation raised before the seam values of this case existed
     mk = dict(extra_imports=getattr(mod, "IMPORTS", ""), shard=getattr(mod, "SHARD", 20), jobs=jobs)
     if getattr(mod, "HEADER", None):
         mk.update(header=mod.HEADER, ctype="list Z", lst=("[", "]"))
-    outs, errors, t_coq = gtlib.run_model(terms, workdir, **mk)
+    live = [i for i, t in enumerate(terms) if t is not None]
+    louts, errors, t_coq = gtlib.run_model([terms[i] for i in live], workdir, **mk)
+    outs = [None] * len(terms)
+    for i, o in zip(live, louts):
+        outs[i] = o
     for rec, o in zip(recs, outs):
         rec["model"] = o
         if rec["impl_error"] is not None:
